@@ -734,6 +734,13 @@ class Interp:
     def _block_store(self, base, idx, v):
         """Z = zeros(shape); Z[:k] = A  /  Z[:, :k] = A   is the concatenation [A, 0]"""
         bt = base.term
+        if base.kind == "arr" and base.shape is not None and len(base.shape) == 1 and base.shape[0].known() and bt.op == "zeros" and idx.kind == "slice" and idx.items[2].kind == "none" and all(i_.kind == "int" or (i_.kind == "arr" and i_.shape == ()) for i_ in idx.items[:2]) and v.has_const and v.const in (1, 1.0, True) and not (idx.items[0].has_const and idx.items[1].has_const):
+            # Z = zeros(n); Z[lo:hi] = 1 : the indicator of the half-open interval [lo, hi)
+            n_ = base.shape[0]
+            pos = V("arr", T("arange", self.api.dim_term(n_)), shape=(n_,), orig=frozenset([FRESH]), labels=frozenset(), loc=fresh_id(), extra="int")
+            m1 = self.api.compare(self, ast.GtE(), pos, idx.items[0], None, None)
+            m2 = self.api.compare(self, ast.Lt(), pos, idx.items[1], None, None)
+            return self.api.binop(self, "bitand", m1, m2, None, None).term
         if bt.op == "astype_dyn" and bt.args[1] == T("dtype", v.term):
             bt = bt.args[0]  # a buffer of the block's own dtype stores it without a cast
         if base.kind == "arr" and base.shape is not None and bt.op == "stack" and len(bt.args) >= 3 and bt.args[-1].op == "zeros" and v.kind == "arr" and v.shape is not None and len(v.shape) == len(base.shape) and bt.args[0].op == "const":
@@ -1552,7 +1559,7 @@ class Interp:
                     vt = loops.vectorise(elt.term, lvt, n, self.term_shape, self.api.dim_term)
                 elif esh is not None:
                     vt = loops.row_selection(elt.term, lvt, n, self.term_shape)
-                if vt is None and not masks and it.kind == "range":
+                if vt is None and not masks and it.kind in ("range", "zip", "arr", "enumerate"):
                     blk = loops.consecutive_blocks(elt.term, lvt, n, self.term_shape)
                     if blk is not None:
                         # consecutive row blocks of lengths L (np.split at the running sums)
